@@ -28,16 +28,16 @@ ACCEPT, REJECT, LENIENT = "accept", "reject", "lenient"
 
 # implementation runs with FRESH string objects for every name/value handed to the library
 def impl_named_rule(rname, name, content, attrs, kids):
-    return RL.impl_named_rule(VT.fr(rname), VT.fr(name), VT.fr(content), [(VT.fr(k), VT.fr(v)) for k, v in attrs], [VT.fr(k) for k in kids])
+    return VT.with_limit(lambda: RL.impl_named_rule(VT.fr(rname), VT.fr(name), VT.fr(content), [(VT.fr(k), VT.fr(v)) for k, v in attrs], [VT.fr(k) for k in kids]), 10)
 
 
 def impl_rule(rule_json, mixed, name, content, attrs, kids):
     import json
-    return RL.impl_rule(json.loads(json.dumps(rule_json)), mixed, VT.fr(name), VT.fr(content), [(VT.fr(k), VT.fr(v)) for k, v in attrs], [VT.fr(k) for k in kids])
+    return VT.with_limit(lambda: RL.impl_rule(json.loads(json.dumps(rule_json)), mixed, VT.fr(name), VT.fr(content), [(VT.fr(k), VT.fr(v)) for k, v in attrs], [VT.fr(k) for k in kids]), 10)
 
 
 def impl_node(name, content, attrs, kids):
-    return RL.impl_node(VT.fr(name), VT.fr(content), [(VT.fr(k), VT.fr(v)) for k, v in attrs], [VT.fr(k) for k in kids])
+    return VT.with_limit(lambda: RL.impl_node(VT.fr(name), VT.fr(content), [(VT.fr(k), VT.fr(v)) for k, v in attrs], [VT.fr(k) for k in kids]), 10)
 
 
 # ------------------------------------------------------------------ lexical classes
